@@ -1,5 +1,6 @@
 #![allow(clippy::all)]
 pub mod base;
+pub mod fault;
 pub mod node;
 pub mod props;
 pub mod rt;
